@@ -166,8 +166,8 @@ func init() {
 		Jobs: func(tier string, seed int64) []Job {
 			js := chunk("stress", "prod", pick(tier, 32, 1000), pick(tier, 2, 32), Job{Timeout: 30 * time.Minute})
 			js = append(js, chunk("stress", "prod", pick(tier, 16, 600), pick(tier, 2, 20), Job{Race: true, Args: []string{"-x", "race=1"}, Timeout: 40 * time.Minute})...)
-			js = append(js, chunk("side", "prod", pick(tier, 12, 600), pick(tier, 3, 30), Job{Timeout: 30 * time.Minute})...)
-			js = append(js, chunk("side", "prod", pick(tier, 12, 450), pick(tier, 3, 30), Job{Race: true, Args: []string{"-x", "race=1"}, Timeout: 40 * time.Minute})...)
+			js = append(js, chunk("side", "prod", pick(tier, 24, 600), pick(tier, 4, 30), Job{Timeout: 30 * time.Minute})...)
+			js = append(js, chunk("side", "prod", pick(tier, 24, 450), pick(tier, 4, 30), Job{Race: true, Args: []string{"-x", "race=1"}, Timeout: 40 * time.Minute})...)
 			return js
 		},
 	})
